@@ -109,7 +109,7 @@ fn commitment_seed(k: &KNode, dbid: u64) -> Option<[u8; 32]> {
     })
 }
 
-fn setup(k: &KNode, dbid: u64) -> bool {
+fn setup(k: &KNode, dbid: u64, permanent_id: bool) -> bool {
     let cp = Cp::new(100);
     let setup = lightning_signer::channel::ChannelSetup {
         is_outbound: true,
@@ -129,7 +129,9 @@ fn setup(k: &KNode, dbid: u64) -> bool {
         counterparty_shutdown_script: None,
         commitment_type: CommitmentType::StaticRemoteKey,
     };
-    k.node.setup_channel(chan_id(dbid), None, setup, &DerivationPath::master()).is_ok()
+    // the LDK flow gives the channel a permanent id that differs from the original one
+    let perm = if permanent_id { Some(ChannelId::new(&[0xc0 + dbid as u8; 32])) } else { None };
+    k.node.setup_channel(chan_id(dbid), perm, setup, &DerivationPath::master()).is_ok()
 }
 
 fn arrangements() -> Vec<Vec<u64>> {
@@ -170,7 +172,12 @@ pub fn main(tier: Tier) -> i32 {
                     let n = arr.len();
                     // restart position r in 0..=n (r == n+1 means no restart), setup mask over arr
                     for r in 0..=(n + 1) {
-                        for mask in 0..(1u32 << n) {
+                        for mask2 in 0..(2u32 << n) {
+                            // the top bit says whether set-up channels get a permanent id
+                            let (mask, perm) = (mask2 & ((1u32 << n) - 1), mask2 >> n != 0);
+                            if perm && mask == 0 {
+                                continue;
+                            }
                             if tier == Tier::Quick && n == 3 && (mask != 0 && mask != 0b111 && mask != 0b010) {
                                 continue;
                             }
@@ -190,7 +197,7 @@ pub fn main(tier: Tier) -> i32 {
                                         obs.push((d, "stub", o));
                                     }
                                     if mask & (1 << i) != 0 {
-                                        if !setup(&k, d) {
+                                        if !setup(&k, d, perm) {
                                             return Err(format!("setup_channel({}) failed", d));
                                         }
                                         if let Some(o) = observe(&k, d) {
@@ -211,7 +218,7 @@ pub fn main(tier: Tier) -> i32 {
                                 let seeds_c: Vec<(u64, [u8; 32])> = arr.iter().map(|&d| (d, commitment_seed(&k, d).unwrap())).collect();
                                 Ok((obs, seeds_c))
                             });
-                            let desc = json!({"seed": si, "style": sname, "network": net.to_string(), "order": arr, "restart_before_index": r, "setup_mask": mask});
+                            let desc = json!({"seed": si, "style": sname, "network": net.to_string(), "order": arr, "restart_before_index": r, "setup_mask": mask, "permanent_ids": perm});
                             let (obs, seeds_c) = match res {
                                 Ok(Ok(x)) => x,
                                 Ok(Err(e)) => {
